@@ -46,8 +46,12 @@ def check(ctx):
         # the accessors are reached but read their quotes from somewhere else than the asset_bid_ask_frames table: who else reads THAT storage is not enumerated here
         ctx.undecided('C07.S1', 'bid/ask frames are read during a run only by the point-in-time accessors', ctx.fn('CSVDailyBarDataSource.get_bid').site(),
                       'the accessors do not read asset_bid_ask_frames: the quotes are kept under another name')
+    elif not (readers & reach):
+        # the call graph does not lead from the run to any reader of the quote frames: with dynamic dispatch in between (getters looked up by name, answers produced
+        # by generators) that is a limit of the call graph, not a property of the code
+        ctx.undecided('C07.S1', 'the run reaches the point-in-time accessors', None, 'no reader of asset_bid_ask_frames is reachable from run in the call graph')
     else:
-        ctx.require(bool(readers & reach), 'C07.S1', 'the run reaches the point-in-time accessors', None)
+        ctx.holds('C07.S1', 'the run reaches the point-in-time accessors', None)
     raw = {fn.qn for fn, n in reads_of_attr(M, 'asset_bar_frames')}
     for q in sorted(raw & reach):
         ctx.violation('C07.S1', 'the raw bars (which include the future) are not readable during a run', ctx.fn(q).site(),
@@ -101,7 +105,9 @@ def check(ctx):
     cone = M.reachable(OUTPUTS + ['CSVDailyBarDataSource.__init__'])
     nscan = 0
     for q in sorted(cone):
-        fn = M.funcs[q]
+        fn = M.funcs.get(q)
+        if fn is None:
+            continue        # a seed name that is now defined by a base class: its definition is reached under its own name
         nscan += 1
         for n in ast.walk(fn.node):
             if isinstance(n, ast.Call) and isinstance(n.func, ast.Attribute):
@@ -117,7 +123,9 @@ def check(ctx):
     ctx.holds('C07.S3', 'backward-fill scan over %d functions in the cone of run/get_equity_curve/get_target_allocations/data loading' % nscan, None)
     # end-relative access inside the data source (anchoring to the last bar)
     for q in sorted(M.reachable(['CSVDailyBarDataSource.__init__', 'CSVDailyBarDataSource.get_bid', 'CSVDailyBarDataSource.get_ask'])):
-        fn = M.funcs[q]
+        fn = M.funcs.get(q)
+        if fn is None:
+            continue        # a seed name that is now defined by a base class: its definition is reached under its own name
         if fn.cls is None or fn.cls.name != 'CSVDailyBarDataSource':
             continue
         for n in ast.walk(fn.node):
